@@ -1,4 +1,5 @@
 import CanvasProofs.Lemmas.C05
+import CanvasProofs.Lemmas.C05FixStart
 
 /-! # C05 — dashing cuts the path by arc length according to the pattern
 
@@ -14,73 +15,37 @@ variable {K : Type} [Field K] [LinearOrder K] [IsStrictOrderedRing K]
 /-- With `Epsilon = 0`, `Equal` is equality. -/
 theorem equal_exact (a b : K) : equal 0 a b = true ↔ a = b := equal_zero_iff a b
 
-/-- `dashStart` (offset not below minus one period): piece `i0` of the pattern starts at path
-position `pos0 ≤ 0`, and that position has the right phase: `offset + pos0` is the start phase of a
-piece `J ≡ i0 (mod n)` up to `m` whole periods (`m = 0` for `offset ≥ 0`, where moreover the start of
-the path lies inside piece `i0`: `-pos0 < d[i0]`). Covers multi-period positive offsets. -/
-theorem start_invariant_partial (d : List K) (hne : d ≠ []) (hnn : ∀ x ∈ d, 0 ≤ x)
-    (fuel : Nat) (offset : K) (i0 : Nat) (pos0 : K) (hoff : -period d ≤ offset)
-    (h : dashStart fuel offset d = some (i0, pos0)) :
+/-- `dashStart` for EVERY offset (negative, beyond one or many periods — repaired by 8d5b47c): piece
+`i0` of the pattern starts at path position `pos0 ≤ 0`, the start of the path lies inside that piece
+(`-pos0 < d[i0]`), and the position has the right phase: `offset + pos0` is the start phase of a
+piece `J ≡ i0 (mod n)` up to `m` whole periods (`m = 0` for `offset ≥ 0`). `fmod` is `math.Mod`, of
+which only `FmodSpec` is used. -/
+theorem start_invariant (fmod : K → K → K) (d : List K) (hne : d ≠ []) (hnn : ∀ x ∈ d, 0 ≤ x)
+    (hmod : FmodSpec fmod d) (fuel : Nat) (offset : K) (i0 : Nat) (pos0 : K)
+    (h : dashStart fmod fuel offset d = some (i0, pos0)) :
     pos0 ≤ 0 ∧ i0 < d.length ∧
-      ∃ J m : Nat, J % d.length = i0 ∧ offset + pos0 + pre d (m * d.length) = pre d J ∧
-        (0 ≤ offset → m = 0 ∧ -pos0 < cyc d J) := by
-  have hl : 0 < d.length := List.length_pos_iff.mpr hne
-  unfold dashStart at h
-  by_cases h0 : 0 ≤ offset
-  · cases hloop : dashStartLoop d fuel 0 offset with
-    | none => rw [hloop] at h; simp at h
-    | some r =>
-      obtain ⟨i, off'⟩ := r
-      rw [hloop] at h
-      have hl0 : dashStartLoop d fuel (0 % d.length) offset = some (i, off') := by rw [Nat.zero_mod]; exact hloop
-      obtain ⟨J', e1, _, e3, e4, e5⟩ := dashStartLoop_spec d hne hnn fuel 0 offset i off' h0 hl0
-      simp only [if_neg (not_lt.mpr e4), Option.some.injEq, Prod.mk.injEq] at h
-      obtain ⟨rfl, rfl⟩ := h
-      refine ⟨by linarith, by rw [← e1]; exact Nat.mod_lt _ hl, J', 0, e1, ?_, fun _ => ⟨rfl, by linarith⟩⟩
-      simp only [Nat.zero_mul, pre] at e3 ⊢
-      linarith
-  · have hneg : offset < 0 := not_le.mp h0
-    cases fuel with
-    | zero => simp [dashStartLoop] at h
-    | succ f =>
-      have hc0 := cyc_nonneg d hnn 0
-      have e0 : d[0]? = some (cyc d 0) := by have := getElem?_cyc d hne 0; rwa [Nat.zero_mod] at this
-      unfold dashStartLoop at h
-      rw [e0] at h
-      simp only [if_neg (show ¬ cyc d 0 ≤ offset by intro hh; linarith), if_pos hneg,
-        Option.some.injEq, Prod.mk.injEq] at h
-      obtain ⟨rfl, rfl⟩ := h
-      refine ⟨by unfold total; linarith, hl, 0, 1, Nat.zero_mod _, ?_, fun hh => absurd hh h0⟩
-      simp only [Nat.one_mul, pre, total, period]
-      ring
+      ∃ J m : Nat, J % d.length = i0 ∧ -pos0 < cyc d J ∧
+        offset + pos0 + pre d (m * d.length) = pre d J ∧ (0 ≤ offset → m = 0) :=
+  C05L.start_invariant fmod d hne hnn hmod fuel offset i0 pos0 h
 
-/-- The loop of `dashStart` terminates: `fuel+1` iterations suffice as soon as `fuel · m > offset`
-for a positive lower bound `m` of the pattern entries (in an Archimedean field such a `fuel` always
-exists; `dashCanonical` guarantees `m > 0`). -/
-theorem start_terminates (d : List K) (hne : d ≠ []) (m : K) (hm : 0 < m) (hd : ∀ x ∈ d, m ≤ x)
-    (fuel : Nat) (offset : K) (h : offset < (fuel : K) * m) :
-    (dashStart (fuel + 1) offset d).isSome = true := by
-  have := dashStartLoop_terminates d hne m hm hd fuel 0 offset h
+/-- The loop of `dashStart` terminates: `fuel+1` iterations suffice as soon as `fuel · m` exceeds the
+offset and one period, for a positive lower bound `m` of the pattern entries (in an Archimedean field
+such a `fuel` exists; `dashCanonical` guarantees `m > 0`). For negative offsets the bound does not
+depend on how many periods the offset lies below zero. -/
+theorem start_terminates (fmod : K → K → K) (d : List K) (hne : d ≠ []) (m : K) (hm : 0 < m)
+    (hd : ∀ x ∈ d, m ≤ x) (hmod : FmodSpec fmod d)
+    (fuel : Nat) (offset : K) (h : offset < (fuel : K) * m) (hp : period d ≤ (fuel : K) * m) :
+    (dashStart fmod (fuel + 1) offset d).isSome = true := by
+  have hr : reducedOffset fmod offset d < (fuel : K) * m := by
+    by_cases hneg : offset < 0
+    · have := reducedOffset_lt_period fmod d hmod offset hneg; linarith
+    · unfold reducedOffset; rw [if_neg hneg]; exact h
+  have := dashStartLoop_terminates d hne m hm hd fuel 0 _ hr
   rw [Nat.zero_mod] at this
   unfold dashStart
-  cases hloop : dashStartLoop d (fuel + 1) 0 offset with
+  cases hloop : dashStartLoop d (fuel + 1) 0 (reducedOffset fmod offset d) with
   | none => rw [hloop] at this; simp at this
-  | some r => obtain ⟨i, off'⟩ := r; simp only; split <;> rfl
-
-/-- Full statement of the start invariant (all offsets). It FAILS for `offset < -period`:
-see `start_negative_beyond_period_witness`. -/
-def start_invariant_statement : Prop :=
-  ∀ (d : List Int) (fuel : Nat) (offset : Int) (i0 : Nat) (pos0 : Int), d ≠ [] → (∀ x ∈ d, 0 < x) →
-    dashStart fuel offset d = some (i0, pos0) → pos0 ≤ 0
-
-/-- Defect witness (known finding C05-dashStart-negative-beyond-period): `dashStart(-5, [2,2])`
-returns `pos0 = 1 > 0`, i.e. piece 0 (a dash) is said to start at path position 1 and to extend
-back over the start of the path, whereas the phase −5 ≡ 3 (mod 4) lies inside the gap. -/
-theorem start_negative_beyond_period_witness :
-    dashStart 10 (-5 : Int) [2, 2] = some (0, 1) ∧ ¬ start_invariant_statement := by
-  refine ⟨by decide, fun h => ?_⟩
-  have := h [2, 2] 10 (-5) 0 1 (by decide) (by decide) (by decide)
-  omega
+  | some r => rfl
 
 /-- Purity of `dashCanonical` (repaired by a6207f9, finding C05-impure-dashCanonical): for every
 pattern and every `Epsilon` the caller's array holds the same values after the call as before. The
@@ -134,7 +99,7 @@ theorem positions_follow_pattern (eps : K) (heps : 0 ≤ eps) (d : List K) (hne 
       _ = m := by simp
 
 /-- A point `x` of the `k`-th piece of the walk lies in pattern piece `J0+k`, provided the start is
-phase-aligned (`start_invariant_partial` supplies the alignment hypothesis). -/
+phase-aligned (`start_invariant` supplies the alignment hypothesis). -/
 theorem walk_piece_in_pattern (d : List K) (offset pos0 : K) (J0 M : Nat)
     (hal : offset + pos0 + pre d (M * d.length) = pre d J0) (k : Nat) (x : K)
     (hx : cpos d J0 pos0 k ≤ x ∧ x < cpos d J0 pos0 (k + 1)) :
@@ -145,21 +110,39 @@ theorem walk_piece_in_pattern (d : List K) (offset pos0 : K) (J0 M : Nat)
   constructor <;> linarith [hx.1, hx.2]
 
 /-- `Dash` keeps exactly the drawn pieces (even-length pattern `d` with non-negative entries, exact
-cuts): piece `k` of the `t.length+1` pieces that `SplitAt(t)` returns is the walk piece
-`(m - t.length) + k` (the first `m - t.length` positions were ≤ 0 and dropped), every point `x` of
-it is drawn by the pattern iff `kept` selects the piece. -/
+cuts): piece `k` of the `nt+1` pieces that `SplitAt` returns is the walk piece `(m - nt) + k` (the
+first `m - nt` positions were ≤ 0 and dropped), every point `x` of it is drawn by the pattern iff
+`kept` selects the piece. `iEnd` is the pattern index used for the last piece; only its parity
+matters (`iEnd = (J0+m) mod n` from `positions_follow_pattern` when every cut is made). -/
 theorem kept_pieces_are_drawn (d : List K) (hnn : ∀ x ∈ d, 0 ≤ x) (heven : d.length % 2 = 0)
     (offset pos0 : K) (J0 M m nt iEnd : Nat)
     (hal : offset + pos0 + pre d (M * d.length) = pre d J0)
-    (hend : iEnd = (J0 + m) % d.length) (hnt : nt ≤ m) (k : Nat) (hk : k ≤ nt) (x : K)
+    (hend : iEnd % 2 = (J0 + m) % 2) (hnt : nt ≤ m) (k : Nat) (hk : k ≤ nt) (x : K)
     (hx : cpos d J0 pos0 (m - nt + k) ≤ x ∧ x < cpos d J0 pos0 (m - nt + k + 1)) :
     kept nt iEnd k = true ↔ DrawnE d (offset + x) := by
   have hin := walk_piece_in_pattern d offset pos0 J0 M hal (m - nt + k) x hx
   rw [drawnE_iff_of_inPiece d hnn heven _ M _ hin, kept_iff]
-  have h2 : iEnd % 2 = (J0 + m) % 2 := by
-    rw [hend]
-    exact Nat.mod_mod_of_dvd _ (Nat.dvd_of_mod_eq_zero heven)
   omega
+
+/-- The final index of the position loop has the parity `kept_pieces_are_drawn` asks for. -/
+theorem end_index_parity (n J0 m iEnd : Nat) (heven : n % 2 = 0) (hend : iEnd = (J0 + m) % n) :
+    iEnd % 2 = (J0 + m) % 2 := by
+  rw [hend]; exact Nat.mod_mod_of_dvd _ (Nat.dvd_of_mod_eq_zero heven)
+
+/-- d3f7b7f: when `SplitAt` makes only the first `made ≤ nt` of the `nt` requested cuts (the others
+lie beyond the end it measures), `Dash` selects among the `made+1` returned pieces with the pattern
+index stepped back by the cuts not made, `iEnd + nt - made`. The selection is still right on every
+stretch between two requested cuts: piece `k ≤ made` (up to the first cut not made, for `k = made`)
+is kept iff it is drawn. -/
+theorem kept_pieces_are_drawn_cuts_made (d : List K) (hnn : ∀ x ∈ d, 0 ≤ x) (heven : d.length % 2 = 0)
+    (offset pos0 : K) (J0 M m nt made iEnd : Nat)
+    (hal : offset + pos0 + pre d (M * d.length) = pre d J0)
+    (hend : iEnd % 2 = (J0 + m) % 2) (hnt : nt ≤ m) (hmade : made ≤ nt) (k : Nat) (hk : k ≤ made) (x : K)
+    (hx : cpos d J0 pos0 (m - nt + k) ≤ x ∧ x < cpos d J0 pos0 (m - nt + k + 1)) :
+    kept made (iEnd + nt - made) k = true ↔ DrawnE d (offset + x) := by
+  have e : m - (nt - made) - made + k = m - nt + k := by omega
+  apply kept_pieces_are_drawn d hnn heven offset pos0 J0 M (m - (nt - made)) made _ hal (by omega) (by omega) k hk x
+  rw [e]; exact hx
 
 /-- The pattern `Dash` walks over (after the odd-length doubling) has even length, as
 `kept_pieces_are_drawn` requires. -/
@@ -237,10 +220,13 @@ theorem canonical_shape_partial (d : List K) (offset o' : K) (d' : List K)
 /-! ### non-vacuity: the model computes the documented example (`Dash(7, 2, 2)` on a line of length
 10 draws [1,3], [5,7], [9,10]); all hypotheses of the theorems above are satisfiable. -/
 example : dashCanonical (0 : Int) 7 [2, 3, 2, 3] = some (7, [2, 3]) := by decide
-example : dashStart 10 (7 : Int) [2, 2] = some (1, -1) := by decide
+example : dashStart Int.tmod 10 (7 : Int) [2, 2] = some (1, -1) := by decide
+example : dashStart Int.tmod 10 (-5 : Int) [2, 2] = some (1, -1) := by decide
+example : dashStart Int.tmod 10 (-154 : Int) [2, 2] = some (1, 0) := by decide
 example : positionsLoop (0 : Int) [2, 2] 10 20 1 (-1) [] = some ([1, 3, 5, 7, 9], 0) := by decide
 example : (List.range 6).filter (kept 5 0) = [1, 3, 5] := by decide
-example : dash (0 : Int) 50 (-1) [2, 2] [(10, false)] = .pieces [(0, 1, 3), (0, 5, 7), (0, 9, 10)] := by decide
-example : dash (0 : Int) 50 0 [1, 0, 2, 3] [(10, false)] = .pieces [(0, 0, 3), (0, 6, 9)] := by decide
+example : dash Int.tmod (0 : Int) 50 (-1) [2, 2] [(10, false)] = .pieces [(0, 1, 3), (0, 5, 7), (0, 9, 10)] := by decide
+example : dash Int.tmod (0 : Int) 50 (-5) [2, 2] [(10, false)] = .pieces [(0, 1, 3), (0, 5, 7), (0, 9, 10)] := by decide
+example : dash Int.tmod (0 : Int) 50 0 [1, 0, 2, 3] [(10, false)] = .pieces [(0, 0, 3), (0, 6, 9)] := by decide
 
 end C05
